@@ -58,6 +58,20 @@ def _val(model, t):
     return str(v)
 
 
+def _plain(v, depth=0):
+    if isinstance(v, (str, int, float, bool)) or v is None:
+        return v
+    if isinstance(v, Fraction):
+        return str(v)
+    if depth > 4:
+        return repr(v)[:80]
+    if isinstance(v, dict):
+        return {str(k): _plain(x, depth + 1) for k, x in v.items()}
+    if isinstance(v, (list, tuple, set)):
+        return [_plain(x, depth + 1) for x in v]
+    return repr(v)[:120]
+
+
 _sk = [0]
 
 
@@ -248,7 +262,7 @@ class Ctx:
             raise NotPure()
         rec = {'id': oid, 'task': self.cfg.task_id, 'path': ''.join(str(int(d)) for d in self.decisions)}
         if info:
-            rec['info'] = info
+            rec['info'] = _plain(info)
         if isinstance(goal, bool):
             if goal:
                 rec.update(status='proved', backend='trivial', ms=0.0)
